@@ -45,6 +45,7 @@ EditsOf(n, s) ==
                    !.ch = SubSeq(n.ch, 1, Len(n.ch) - 1),
                    !.keys = IF IsDictKindName(n.k) THEN SubSeq(n.keys, 1, Len(n.keys) - 1) ELSE <<>>]} ELSE {}) \cup
   (IF n.k \in {"tuple", "list"} /\ n.id > 0 THEN {[n EXCEPT !.ch = Append(n.ch, FreshLeaf)]} ELSE {}) \cup
+  (IF n.k = "deque" /\ (n.meta = 0 \/ n.meta - 1 > Len(n.ch)) THEN {[n EXCEPT !.ch = Append(n.ch, FreshLeaf)]} ELSE {}) \cup
   (IF n.k = "deque" THEN {[n EXCEPT !.meta = IF n.meta = 0 THEN Len(n.ch) + 3 ELSE 0]} ELSE {}) \cup
   (IF n.k = "nt" /\ n.cls = 11 THEN {[n EXCEPT !.cls = 14]} ELSE {}) \cup
   (IF n.k = "custom" /\ ~n.hasent THEN {[n EXCEPT !.meta = n.meta + 1], [n EXCEPT !.cls = IF n.cls = 1 THEN 3 ELSE 1]} ELSE {}) \cup
